@@ -23,6 +23,7 @@
    option: None = leave unchanged. *)
 From LP Require Export Num Pay Sg1.
 From LP Require Import Consts Semver.
+From Coq Require String DecimalString.
 
 (* ------------------------------------------------------------------ vocabulary *)
 Inductive ctype := Base | Updatable | Onchain | NT.
@@ -474,16 +475,92 @@ Definition migrate_to_updatable (nw : N) (d : deployed) : result deployed :=
           Ok (mkDep Updatable (d_admin d) NUpd CUR_VERSION s2)
   end.
 
-Inductive action := ACall (o : op) | AMigrate.
+(* ---- each variant's own migrate entry point (same code id) ------------------------------
+   sources: contracts/collections/sg721-metadata-onchain/src/lib.rs  entry::migrate
+            contracts/collections/sg721-nt/src/lib.rs                entry::migrate
+            contracts/collections/sg721-base/src/contract.rs         Sg721Contract::migrate
+   sg721-base's own entry module exports no migrate; `Sg721Contract::migrate` is the library
+   function a contract built on sg721-base wires as its migrate entry point (the harness
+   does exactly that for the sg721-base variant).  It compares version STRINGS. *)
+Definition dec_str (n : N) : String.string := DecimalString.NilEmpty.string_of_uint (N.to_uint n).
+Definition dot_str : String.string := String.String (Ascii.ascii_of_N 46) String.EmptyString.
+Definition ver_str (v : version) : String.string :=
+  let '(a, b, c) := v in
+  String.append (dec_str a) (String.append dot_str (String.append (dec_str b) (String.append dot_str (dec_str c)))).
 
-(* one transaction: a call of the contract, or a MsgMigrateContract to the updatable code
-   (the chain lets only the admin migrate) *)
+(* metadata-onchain: no name check; same version returns Ok untouched; otherwise the cw2
+   record becomes (its own name, TO_VERSION = "3.0.0" - not the new version), then the
+   3.0.0 step for records below 3.0.0 (legacy minter item: absent here, so it fails).
+   There is NO 3.1.0 step: the royalty anchor is never touched. *)
+Definition onchain_migrate (d : deployed) : result deployed :=
+  match parse_version sg721_metadata_onchain__EARLIEST_VERSION,
+        parse_version sg721_metadata_onchain__CONTRACT_VERSION,
+        parse_version sg721_metadata_onchain__TO_VERSION with
+  | Some v0, Some cur, Some tov =>
+      let v := d_ver d in
+      if ver_ltb v v0 then Err
+      else if ver_ltb cur v then Err
+      else if ver_eqb cur v then Ok d
+      else if ver_ltb v (3, 0, 0) then Err
+      else Ok (mkDep (d_ct d) (d_admin d) (NOther 1) tov (d_st d))
+  | _, _, _ => Err
+  end.
+
+(* sg721-nt: only the crate's own constants are compared, as strings; with CONTRACT_VERSION
+   string-greater than TO_VERSION every migrate is refused.  (Were they equal it would
+   return Ok untouched; otherwise cw721-base's 0.16 -> 0.17 step needs the legacy minter.) *)
+Definition nt_migrate (d : deployed) : result deployed :=
+  let cv := sg721_nt__CONTRACT_VERSION in
+  if str_ltb cv sg721_nt__EARLIEST_VERSION then Err
+  else if str_ltb sg721_nt__TO_VERSION cv then Err
+  else if String.eqb cv sg721_nt__TO_VERSION then Ok d
+  else Err.
+
+(* Sg721Contract::migrate: name must be the sg721-base name; the stored version STRING must
+   be string-less than CONTRACT_VERSION; string-below "3.0.0" runs the 3.0.0 step (fails
+   here), string-below "3.1.0" re-creates the royalty anchor at now - 24 h; records
+   (sg721-base name, CONTRACT_VERSION). *)
+Definition base_lib_migrate (nw : N) (d : deployed) : result deployed :=
+  let vs := ver_str (d_ver d) in
+  let cvs := sg721_base__CONTRACT_VERSION in
+  if negb (cwname_eqb (d_name d) NBase) then Err
+  else if negb (str_ltb vs cvs) then Err
+  else if str_ltb vs (ver_str (3, 0, 0)) then Err
+  else match parse_version cvs with
+       | None => Err
+       | Some cur =>
+           do s2 <- (if str_ltb vs (ver_str (3, 1, 0))
+                     then if nw <? DAY_NS then Err
+                          else Ok (set_info (d_st d) (info (d_st d)) (nw - DAY_NS))
+                     else Ok (d_st d));
+           Ok (mkDep (d_ct d) (d_admin d) NBase cur s2)
+       end.
+
+Definition migrate_self (nw : N) (d : deployed) : result deployed :=
+  match d_ct d with
+  | Base => base_lib_migrate nw d
+  | Updatable => migrate_to_updatable nw d
+  | Onchain => onchain_migrate d
+  | NT => nt_migrate d
+  end.
+
+Inductive action :=
+| ACall (o : op)
+| AMigrate            (* code swap to the sg721-updatable code *)
+| AMigrateSelf.       (* migrate with the code the contract already runs *)
+
+(* one transaction: a call of the contract, or a MsgMigrateContract (the chain lets only
+   the admin migrate) *)
 Definition dstep (self : addr) (e : env) (a : action) (d : deployed) : result (deployed * list bmsg) :=
   match a with
   | ACall o => do r <- step (d_ct d) self e o (d_st d); Ok (with_state d (fst r), snd r)
   | AMigrate =>
       if d_admin d =? sender e
       then do d' <- migrate_to_updatable (now e) d; Ok (d', [])
+      else Err
+  | AMigrateSelf =>
+      if d_admin d =? sender e
+      then do d' <- migrate_self (now e) d; Ok (d', [])
       else Err
   end.
 
